@@ -8,3 +8,5 @@ try:
     from . import l_parser       # noqa: F401  (lemmas need z3; absent on the replay side)
 except ImportError:
     pass
+from . import spec_smf           # noqa: F401
+from . import c_meta             # noqa: F401
